@@ -1119,7 +1119,7 @@ func genToolbox(rng *rand.Rand, kind int) *primShape {
 			dir = [3]int{}
 		}
 		// the direction need not be a unit vector: short, long and unit ones
-		dscale := []float64{1, 0.125, 0.3, 5}[rng.Intn(4)]
+		dscale := []float64{0.125, 1, 0.3, 5}[kind/16%4]
 		return solidOnly2("toolbox3d.Teardrop2D", fmt.Sprintf("c=%v r=%v dir=%v*%g", p1[:2], r, dir[:2], dscale),
 			&toolbox3d.Teardrop2D{Center: model2d.XY(float64(p1[0]), float64(p1[1])), Radius: r, Direction: v2c(i3f(dir)).Scale(dscale)})
 	case 2:
@@ -1841,6 +1841,9 @@ func init() {
 		}
 		for i := 0; i < 16*((n+3)/4); i++ {
 			shapes = append(shapes, genToolbox(rng, i))
+		}
+		for i := 0; i < 8; i++ {
+			shapes = append(shapes, genToolbox(rng, 1+16*i)) // teardrops with every length of direction vector
 		}
 		// derived solids (own stream: the records above do not depend on them)
 		shapes = append(shapes, genDerivedSolids(rand.New(rand.NewSource(int64(a.int("seed", 1))*7919+33)), n)...)
